@@ -1,7 +1,7 @@
 #!/usr/bin/env python3
 import json
 checks = {
- "C01": ("model_checking", "E1 history explorer", "breadth-first search over call histories (afero alphabets A/N, archive alphabet B, open-handle alphabet H), state-merged; after EVERY transition the live tree is compared field by field with a reopened instance and with an instance rebuilt from the tape alone", "§6 C01"),
+ "C01": ("model_checking", "E1 history explorer", "breadth-first search over call histories (afero alphabets A/N, archive alphabet B, open-handle alphabet H, histories that start on a foreign tar archive F), state-merged; after EVERY transition the live tree is compared field by field with a reopened instance and with an instance rebuilt from the tape alone", "§6 C01"),
  "C02": ("model_checking", "E1 history explorer", "same exploration; every call is executed in lock-step with a reference hierarchical file system (success/failure agreement, resulting tree, untouched entries unchanged); OpenFile flag lattice and a name universe with SQL wildcards, dots, spaces, non-ASCII, >100-byte names", "§6 C02"),
  "C03": ("exploration", "E5 matrix enumerator", "complete Cartesian product of pipeline configurations x record sizes x caches x content classes; each case written by the real write path and read back four ways", "§6 C03"),
  "C04": ("model_checking", "E1 history explorer (archive level)", "breadth-first search over batched Archive / Update / Delete / Move histories for several record sizes; after every transition every index position is checked against an independent block scanner of the tape, Fetch at the position must return the reference content, Query must report the scanner's positions", "§6 C04"),
